@@ -1,6 +1,7 @@
 package main
 
 import (
+	"encoding/json"
 	"fmt"
 	"go/types"
 	"os"
@@ -22,15 +23,15 @@ const stdlibPath = "github.com/traefik/yaegi/stdlib"
 // recording stubs and symbolic arguments.
 func init() {
 	props["C14"] = &Prop{ID: "C14", PkgDir: "stdlib", PkgPath: stdlibPath, PkgName: "stdlib", Custom: runC14, Harness: []string{"C14_stub.go"}, TestFiles: []string{"C14_replay.go.txt"},
-		Bounds:      []string{"every method of every _pkg_Iface wrapper type compiled for the running Go release (go1_22 files)"},
-		Assumptions: []string{"W<Method> fields are uninterpreted functions (recording stubs with fresh results)", "arguments are unconstrained symbolic values of their types"},
-		Outside:     []string{"that each map entry denotes the identically named object, constant values, completeness against api/go1*.txt (finite syntactic facts, a different technique)", "go1_21 files (not selected by the installed toolchain)", "syscall/unsafe/unrestricted sub-packages"},
+		Bounds:      []string{"every entry of the tables built by the initialisers of stdlib, stdlib/unrestricted, stdlib/syscall and stdlib/unsafe as compiled for the running toolchain and platform (go1_22 files, linux/amd64 syscall table): 8152 bindings", "every method of every _pkg_Iface wrapper type compiled for the running Go release (go1_22 files)"},
+		Assumptions: []string{"W<Method> fields are uninterpreted functions (recording stubs with fresh results)", "arguments are unconstrained symbolic values of their types", "binding identity has no symbolic input: the engine evaluates the real initialisers and each entry's denotation is compared with the go/types object the key names; the solver is not involved in that part", "completeness is judged against the toolchain's packages minus what GOROOT/api/go1.N.txt (N >= 23) lists as added after go1.22", "typed floating-point constants: none occur in the tables (they would be reported as not compared)"},
+		Outside:     []string{"go1_21 files (not selected by the installed toolchain)", "syscall tables of other platforms", "in stdlib/unsafe the builtins Sizeof, Alignof, Offsetof, Add (no package-level object to denote)", "MapTypes and wrapper-composed.go"},
 	}
 }
 
 func runC14(p *Prop, tier string, seed int, evPath string) int {
 	t0 := time.Now()
-	prog, err := sym.Load(repoDir, []string{"./stdlib"}, nil, []string{stdlibPath}, nil)
+	prog, err := sym.Load(repoDir, []string{"./stdlib", "./stdlib/unrestricted", "./stdlib/syscall", "./stdlib/unsafe"}, nil, []string{stdlibPath, stdlibPath + "/unrestricted", stdlibPath + "/syscall", stdlibPath + "/unsafe"}, nil)
 	if err != nil {
 		fmt.Println("INCONCLUSIVE: cannot load ./stdlib:", firstLine(err.Error()))
 		writeEvidence(evPath, p.ID, tier, seed, time.Since(t0), nil, nil, 0, []string{"load failed"}, 0, p)
@@ -43,6 +44,23 @@ func runC14(p *Prop, tier string, seed int, evPath string) int {
 	}
 	defer e.Close()
 	e.NoErrFork = true
+	// ---- binding identity: the table the initialisers build ----
+	var bindEntries, bindCompared int
+	var bindFails []c14BindFailure
+	var bindNotes []string
+	var berr error
+	for _, tb := range c14Tables {
+		en, cm, fl, nt, err := c14CheckBindings(prog, e, tb.Path, tb.Restricted, tb.MinPkgs, tb.Skip)
+		if err != nil {
+			berr = err
+			fmt.Println("INCONCLUSIVE: binding table:", err)
+			continue
+		}
+		bindEntries, bindCompared = bindEntries+en, bindCompared+cm
+		bindFails = append(bindFails, fl...)
+		bindNotes = append(bindNotes, fmt.Sprintf("%s: %d entries, %d compared", tb.Path, en, cm))
+		bindNotes = append(bindNotes, nt...)
+	}
 	pk := prog.Package(stdlibPath)
 	type item struct {
 		typ  *types.Named
@@ -204,6 +222,39 @@ func runC14(p *Prop, tier string, seed int, evPath string) int {
 			}
 		}
 	}
+	if berr != nil {
+		inconclusive = append(inconclusive, "binding table: "+berr.Error())
+	}
+	bindViol := 0
+	if len(bindFails) > 0 {
+		sc, _, err := newScratch(p, true)
+		if err == nil {
+			defer sc.cleanup()
+			for i, f := range bindFails {
+				if i >= 12 {
+					inconclusive = append(inconclusive, fmt.Sprintf("%d further binding mismatches not replayed", len(bindFails)-i))
+					break
+				}
+				key := f.Key + "." + f.Name
+				okBad, out := c14ReplayBinding(p, sc, f)
+				path := filepath.Join(verifDir, "replays", p.ID, "bind_"+sanitize(key)+".json")
+				jb, _ := json.Marshal(map[string]string{"property": "C14", "table": f.Table, "key": f.Key, "name": f.Name, "why": f.Why, "kind": f.Kind, "want": f.Want})
+				os.WriteFile(path, append(jb, '\n'), 0o644)
+				if okBad {
+					fmt.Printf("VIOLATION property=C14 replay=%s\n  binding %s[%s] %s (confirmed natively against the named object)\n", path, f.Key, f.Name, f.Why)
+					nViol++
+					bindViol++
+					exit = 1
+				} else {
+					fmt.Printf("UNREPRODUCED binding %s[%s]: %s\n%s\n", f.Key, f.Name, f.Why, tail(out, 4))
+					inconclusive = append(inconclusive, key+": binding mismatch did not reproduce natively")
+				}
+			}
+		}
+	}
+	for _, n := range bindNotes {
+		fmt.Println("  note:", n)
+	}
 	for _, inc := range inconclusive {
 		fmt.Println("INCONCLUSIVE:", inc)
 	}
@@ -212,10 +263,48 @@ func runC14(p *Prop, tier string, seed int, evPath string) int {
 		"samples": samplesOrPlaceholder(samples), "obligations": len(items), "discharged": checked - len(failures),
 		"queries": e.Solver.Queries, "solver_time_s": e.Solver.Time.Seconds(), "wrapper_methods": len(items),
 		"functions_encoded": []string{fmt.Sprintf("%d wrapper methods of package stdlib (receiver types _pkg_Iface)", checked)},
+		"binding_entries": bindEntries, "binding_entries_compared": bindCompared, "binding_mismatches": len(bindFails), "binding_notes": bindNotes,
 		"bounds": p.Bounds, "outside": p.Outside, "inconclusive": inconclusive, "source_hash": prog.SourceHash(),
 		"technique": "symbolic execution of each wrapper method from go/ssa with uninterpreted W-fields; argument/result identity asserted (z3)",
 	}
 	writeEvidenceCov(evPath, p.ID, tier, seed, time.Since(t0), cov, p.Assumptions, nViol)
-	fmt.Printf("C14 %s: wrapper methods=%d checked=%d violations=%d inconclusive=%d wall=%.1fs\n", tier, len(items), checked, nViol, len(inconclusive), time.Since(t0).Seconds())
+	fmt.Printf("C14 %s: bindings=%d compared=%d mismatches=%d; wrapper methods=%d checked=%d violations=%d inconclusive=%d wall=%.1fs\n", tier, bindEntries, bindCompared, len(bindFails), len(items), checked, nViol, len(inconclusive), time.Since(t0).Seconds())
 	return exit
+}
+
+// replayC14 replays a stored C14 counterexample (wrapper method or binding).
+func replayC14(p *Prop, path string, raw []byte) int {
+	var m map[string]string
+	if err := json.Unmarshal(raw, &m); err != nil {
+		fmt.Fprintln(os.Stderr, err)
+		return 2
+	}
+	sc, _, err := newScratch(p, true)
+	if err != nil {
+		fmt.Fprintln(os.Stderr, err)
+		return 2
+	}
+	defer sc.cleanup()
+	if m["key"] != "" {
+		f := c14BindFailure{Table: m["table"], Key: m["key"], Name: m["name"], Why: m["why"], Kind: m["kind"], Want: m["want"]}
+		bad, out := c14ReplayBinding(p, sc, f)
+		fmt.Printf("replay of binding %s[%s] against the real build: mismatch=%v\n", f.Key, f.Name, bad)
+		if bad {
+			fmt.Printf("VIOLATION property=C14 replay=%s\n", path)
+			return 1
+		}
+		if !strings.Contains(out, "VC14BIND OK") {
+			fmt.Println(tail(out, 6))
+			return 2
+		}
+		return 0
+	}
+	out, _ := sc.goTest(p, "^TestVerifReplayC14$", []string{"VERIF_C14_TYPE=" + m["type"], "VERIF_C14_METHOD=" + m["method"]}, false, 10*time.Minute)
+	bad := strings.Contains(out, "VC14 BAD")
+	fmt.Printf("replay of wrapper %s.%s against the real build: mismatch=%v\n", m["type"], m["method"], bad)
+	if bad {
+		fmt.Printf("VIOLATION property=C14 replay=%s\n", path)
+		return 1
+	}
+	return 0
 }
